@@ -306,6 +306,8 @@ def plan(t, ctx, depth=0, tvmap=None):
     if k == "path":
         vals = ctx.cut([ti.type("/tmp/x"), ti.type("a/b.txt"), ti.type(".")])
         return Pool(ctx.sel(len(vals)), vals)
+    if k == "stype" and __import__("dataclasses").is_dataclass(ti.type):
+        return Obj(ti.type, [(name, plan(ft, ctx, depth + 1, tvmap)) for name, ft, f in tinfo.dc_fields(ti.type) if f.init])
     if k == "stype":
         return Tup([Scalar(ctx.new("i", "int"))], ctor=lambda xs, c=ti.type: c(xs[0]))
     if k == "enum":
